@@ -150,6 +150,7 @@ pub fn fnv(s: &[u8]) -> u64 {
 
 thread_local! {
     static LAST_PANIC: RefCell<Option<String>> = const { RefCell::new(None) };
+    static GUARDED: std::cell::Cell<bool> = const { std::cell::Cell::new(false) };
 }
 
 pub fn install_panic_hook() {
@@ -162,6 +163,9 @@ pub fn install_panic_hook() {
             .unwrap_or_else(|| "<non-string panic>".to_string());
         let loc = info.location().map(|l| format!("{}:{}", l.file(), l.line())).unwrap_or_default();
         let short: String = msg.chars().take(300).collect();
+        if !GUARDED.with(|g| g.get()) {
+            eprintln!("harness panic (outside guarded code): {short} at {loc}");
+        }
         LAST_PANIC.with(|p| *p.borrow_mut() = Some(format!("{short} at {loc}")));
     }));
 }
@@ -169,7 +173,10 @@ pub fn install_panic_hook() {
 /// Runs `f`, returning Err(panic message with location) if it panicked.
 pub fn guarded<T>(f: impl FnOnce() -> T) -> Result<T, String> {
     LAST_PANIC.with(|p| *p.borrow_mut() = None);
-    match std::panic::catch_unwind(std::panic::AssertUnwindSafe(f)) {
+    let was = GUARDED.with(|g| g.replace(true));
+    let r = std::panic::catch_unwind(std::panic::AssertUnwindSafe(f));
+    GUARDED.with(|g| g.set(was));
+    match r {
         Ok(v) => Ok(v),
         Err(_) => Err(LAST_PANIC.with(|p| p.borrow_mut().take()).unwrap_or_else(|| "panic".to_string())),
     }
